@@ -196,7 +196,7 @@ Proof.
   assert (UPD : forall j x r, (forall y, nth_error ls j = Some y -> same_view env y x) ->
                  exists l', nth_error (fst (push (update j x ls) r)) k = Some l' /\ observe env l' = observe env l).
   { intros j x r V. destruct (update_view env ls j x k l V E) as [l' [A B]]. exists l'. split; [apply push_keeps; exact A|apply same_view_observe; exact B]. }
-  destruct o as [a|j a|j s|j|j m|j|j v m|j|j wi wn|j wi wn]; cbn [step].
+  destruct o as [a|j a|j s|j|j m|j|j v m|j|j wi wn|j wi wn|j cols kv]; cbn [step].
   - apply KEEP.
   - destruct (nth_error ls (j mod length ls)); [apply KEEP|exists l; split; [exact E|reflexivity]].
   - destruct (nth_error ls (j mod length ls)); [apply KEEP|exists l; split; [exact E|reflexivity]].
@@ -223,6 +223,56 @@ Proof.
     destruct (via_arrow env y wi wn) as [y' r] eqn:V.
     destruct (via_arrow_wf env y wi wn y' r EO (NTH _ _ N) V) as [_ [SV _]].
     apply UPD. intros y0 E0. rewrite N in E0. injection E0 as <-. exact SV.
+  - destruct (nth_error ls (j mod length ls)) as [y|] eqn:N; [|exists l; split; [exact E|reflexivity]].
+    destruct (via_arrow_cols env y cols kv) as [y' r] eqn:V.
+    destruct (via_arrow_cols_wf env y cols kv y' r EO (NTH _ _ N) V) as [_ [SV _]].
+    apply UPD. intros y0 E0. rewrite N in E0. injection E0 as <-. exact SV.
+Qed.
+
+(* ---------------------------------------------------------------- columns_by_name *)
+Lemma existsb_in_col (p : col -> bool) (c : col) cols :
+  (forall d, p d = true <-> d = c) -> (existsb p cols = true <-> In c cols).
+Proof.
+  intro P. rewrite existsb_exists. split.
+  - intros [d [I Pd]]. apply P in Pd. subst d. exact I.
+  - intro I. exists c. split; [exact I|apply P; reflexivity].
+Qed.
+Lemma has_id_in cols : has_id cols = true <-> In CId cols.
+Proof. apply existsb_in_col. intros [| |g]; split; try discriminate; try reflexivity. Qed.
+Lemma has_num_in cols : has_num cols = true <-> In CNum cols.
+Proof. apply existsb_in_col. intros [| |g]; split; try discriminate; try reflexivity. Qed.
+Lemma has_name_in f cols : has_name f cols = true <-> In (CName f) cols.
+Proof.
+  apply existsb_in_col. intros [| |g]; split; try discriminate.
+  - intro H. apply Nat.eqb_eq in H. congruence.
+  - intro H. injection H as ->. apply Nat.eqb_refl.
+Qed.
+
+(* to_arrow(columns=cols) of a well-formed list, cols in ANY order: the identifier column holds the
+   list's identifiers, the number column its numbers, the rank column its ranks (nulls if unordered),
+   the column named f the field f (nulls if the list has no such field); nothing else is there *)
+Theorem columns_by_name_l env l cols l' t :
+  env_ok env -> wf env l -> arrow_cols env l cols t_none = (l', Ok t) ->
+  observe env l' = observe env l /\
+  (In CId cols -> exists i, get_ids env l = Ok i /\ t_ids t = Some i) /\ (~ In CId cols -> t_ids t = None) /\
+  (In CNum cols -> exists n, get_nums env l MError = Ok n /\ t_nums t = Some n) /\ (~ In CNum cols -> t_nums t = None) /\
+  (In (CName F_RANK) cols -> t_rank t = get_ranks l) /\ (~ In (CName F_RANK) cols -> t_rank t = None) /\
+  (forall f, f <> F_RANK ->
+     (In (CName f) cols -> lookup f (t_fields t) = get_field l f) /\ (~ In (CName f) cols -> lookup f (t_fields t) = None)).
+Proof.
+  intros EO W E. destruct (arrow_cols_gen env l EO cols l t_none l' (Ok t) W (same_view_refl env l) E) as [_ [V S]].
+  destruct (S t eq_refl) as [A [B [C [D _]]]].
+  split; [apply same_view_observe; exact V|].
+  split; [|split; [|split; [|split; [|split; [|split]]]]].
+  - intro I. apply has_id_in in I. rewrite I in A. exact A.
+  - intro I. destruct (has_id cols) eqn:H; [exfalso; apply I; apply has_id_in; exact H|exact A].
+  - intro I. apply has_num_in in I. rewrite I in B. exact B.
+  - intro I. destruct (has_num cols) eqn:H; [exfalso; apply I; apply has_num_in; exact H|exact B].
+  - intro I. apply has_name_in in I. rewrite I in C. exact C.
+  - intro I. destruct (has_name F_RANK cols) eqn:H; [exfalso; apply I; apply has_name_in; exact H|exact C].
+  - intros f NF. rewrite (D f NF). split.
+    + intro I. apply has_name_in in I. rewrite I. cbn [andb]. destruct (get_field l f); reflexivity.
+    + intro I. destruct (has_name f cols) eqn:H; [exfalso; apply I; apply has_name_in; exact H|reflexivity].
 Qed.
 
 (* ---------------------------------------------------------------- bad_shapes_rejected *)
@@ -311,4 +361,33 @@ Proof.
         -- apply check_1d_some in C. injection C as _ ->. reflexivity.
         -- cbn [check_1d] in C. destruct r; [reflexivity|]. cbn in C. discriminate.
     + intros _. split; discriminate.
+Qed.
+
+(* a concrete conversion with the columns in a non-canonical order (score, rank, item_id, rating, foo) *)
+Lemma c16_columns_example_l :
+  let env := [[10; 11; 12; 13]] in
+  let l := {| len := 3%nat; ids := Some [11; 99; 13]; nums := None; vocab := Some 0%nat; ordered := true; ranks := None;
+              fields := [(0%nat, [VZ 4; VZ 8; VNaN]); (2%nat, [VZ 1; VZ 2; VZ 3])] |} in
+  let cols := [CName 0%nat; CName 1%nat; CId; CName 2%nat; CName 3%nat] in
+  env_ok env /\ wf env l /\
+  exists l' t, arrow_cols env l cols t_none = (l', Ok t) /\
+    t_ids t = Some [11; 99; 13] /\ t_nums t = None /\ t_rank t = Some [1; 2; 3] /\
+    lookup 0%nat (t_fields t) = Some [VZ 4; VZ 8; VNaN] /\ lookup 2%nat (t_fields t) = Some [VZ 1; VZ 2; VZ 3] /\
+    lookup 3%nat (t_fields t) = None /\
+    exists l2 x, via_arrow_cols env l cols true = (l2, Ok x) /\ (0 < len l)%nat /\ ordered x = true /\
+      get_ids env x = Ok [11; 99; 13] /\ get_field x 2%nat = Some [VZ 1; VZ 2; VZ 3] /\ get_field x 3%nat = None.
+Proof.
+  cbv zeta. split; [|split].
+  - repeat (constructor; [repeat (constructor; [cbn; intuition discriminate|]); constructor|]). constructor.
+  - constructor; cbn [len ids nums vocab ordered ranks fields].
+    + intros i E. injection E as <-. reflexivity.
+    + discriminate.
+    + left. discriminate.
+    + repeat constructor; discriminate.
+    + reflexivity.
+    + repeat constructor; cbn; intuition discriminate.
+    + discriminate.
+    + discriminate.
+  - eexists _, _. split; [vm_compute; reflexivity|]. repeat split.
+    eexists _, _. split; [vm_compute; reflexivity|]. repeat split. cbn. lia.
 Qed.
